@@ -1728,6 +1728,9 @@ struct Engine
 
 }  // namespace
 
+// family "offload-sequence" (offload_sequence.cc): the per-slot offload state over multi-step histories
+void run_offload_sequences(verif::Report& rep, verif::Args const& args);
+
 int main(int argc, char** argv)
 {
     auto args = verif::parse_args(argc, argv);
@@ -1753,7 +1756,12 @@ int main(int argc, char** argv)
         "threshold regime or photon-number regime x table shape or component count x rise-time "
         "class x pole class x stream kind); steps that produced no photon above threshold are "
         "trivial; steps below threshold with zero photons requested count as one non-trivial "
-        "evaluation of the threshold clause. Thorough tier adds distributional spot checks.");
+        "evaluation of the threshold clause. Thorough tier adds distributional spot checks. "
+        "Family offload-sequence: scripted multi-step e-/e+/gamma tracks in two-boxes with the two "
+        "volumes mapped to optical / non-optical / two different optical materials and 1-3 reused "
+        "track slots, driven through the real OffloadGatherExecutor and CerenkovOffloadExecutor "
+        "with a CoreTrackView; each step is one evaluation (gathered pre-step record and stored "
+        "distribution must be those of this step or empty; photons lie on the true segment).");
     rep.assume("physical constants and unit conversions of celeritas (alpha, hbar, c, h, MeV) "
                "are trusted");
     rep.assume("canonical reals have 53 bits (GenerateCanonical32): Box-Muller |z| <= 8.5717 "
@@ -1801,6 +1809,7 @@ int main(int argc, char** argv)
             eng.stat_case(ci / 16);
     }
     eng.flush();
+    run_offload_sequences(rep, args);
     rep.note("cases", ci);
     rep.note("photons_judged", eng.photons);
     rep.note("photons_in_spot_checks", eng.stat_photons);
